@@ -21,7 +21,7 @@ Controls: `none` | `[]` | `[oid:crit:val|none,…]` (Driver/Envelope).
 import Ldap3V.Driver.Util
 import Ldap3V.Driver.Envelope
 import Ldap3V.Spec.Requests
-namespace Ldap3V.Driver.RequestsD
+namespace Ldap3V.Driver.Req
 open Ldap3V
 
 def showOpt (o : Option Bytes) : String := match o with | some v => hexOf v | none => "none"
@@ -207,8 +207,9 @@ def handleRequests (cmd arg : String) : Option String :=
       | none => "bad-request")
   | _ => none
 
-end Ldap3V.Driver.RequestsD
+end Ldap3V.Driver.Req
 
 namespace Ldap3V.Driver
-def handleRequests := RequestsD.handleRequests
+/-- line-protocol handler of the request slice (definitions live in `Driver.Req` to keep names apart) -/
+def handleRequests (cmd arg : String) : Option String := Req.handleRequests cmd arg
 end Ldap3V.Driver
